@@ -29,11 +29,13 @@ theorem consumes (T : Tbl) : ∀ f,
         simp only [expr] at h
         split at h
         · split at h
-          · rename_i x rest' hx
-            have h1 := ihe _ _ _ _ hx
-            have h2 := ihl _ _ _ _ _ h
-            simp; omega
           · simp at h
+          · split at h
+            · rename_i x rest' hx
+              have h1 := ihe _ _ _ _ hx
+              have h2 := ihl _ _ _ _ _ h
+              simp; omega
+            · simp at h
         · split at h
           · rename_i c' rest'
             split at h
@@ -120,14 +122,16 @@ theorem no_fuel_error (T : Tbl) : ∀ f,
         simp only [List.length_cons] at hf
         split
         · split
-          · rename_i x rest' hx
-            have := hc.1 _ _ _ _ hx
-            exact ihl _ _ _ (by omega)
-          · rename_i e hx
-            intro he
-            simp only [Except.error.injEq] at he
-            subst he
-            exact ihe _ _ (by omega) hx
+          · simp
+          · split
+            · rename_i x rest' hx
+              have := hc.1 _ _ _ _ hx
+              exact ihl _ _ _ (by omega)
+            · rename_i e hx
+              intro he
+              simp only [Except.error.injEq] at he
+              subst he
+              exact ihe _ _ (by omega) hx
         · split
           · rename_i c' rest'
             split
